@@ -23,7 +23,9 @@ def summary(out):
 def main():
     pid, k = sys.argv[1], sys.argv[2]
     full = "--full" in sys.argv
-    wt = f"/tmp/mut/{pid}"
+    root = os.environ.get("MUT_ROOT", "/tmp/mut")
+    tag = os.environ.get("MUT_TAG", "")
+    wt = f"{root}/{pid}"
     out = f"{wt}/out/{k}"
     patch = f"{out}/patch.diff"
     if os.path.exists(f"{out}/patch.rebased.diff") and "--rebased" in sys.argv:
@@ -93,7 +95,7 @@ def main():
     log["confirmed"] = verdict
     print(("CONFIRMED" if verdict else "REJECTED"), pid, k, json.dumps(log["steps"]))
     if verdict:
-        dst = f"/verif/seeded/{pid}-{k}"
+        dst = f"/verif/seeded/{pid}-{tag}{k}"
         shutil.rmtree(dst, ignore_errors=True)
         os.makedirs(dst)
         shutil.copy(patch, f"{dst}/patch.diff")
